@@ -1,22 +1,16 @@
-"""Per-property configuration of ./check (which Lean modules carry the theorems, which harness
-sub-command runs the correspondence / oracle, how much per tier)."""
+"""Per-property configuration of ./check: every tools/props/<ID>.py defines CONFIG (which Lean modules carry
+the theorems, which harness sub-command runs the correspondence / oracle, how much per tier, manifest texts).
+A property without such a file must appear in NOT_APPLICABLE below with its reason."""
+import importlib.util, os
 
-PROPS = {
-    "C17": {
-        "lean_modules": ["BsVerif.Props.C17"],
-        "audit": "BsVerif/Audit/C17.lean",
-        "bsv_cmd": "c17",
-        "technique": "Lean 4 refinement proof (index = log filtered by component suffix) + differential correspondence with PathSearchIndex",
-        "level_text": "Full functional refinement of the path-suffix index proved in Lean for every insert sequence and needle (C17_index_refines_suffix and corollaries); the model is tied to the real PathSearchIndex on every run by executing seeded insert/get sequences on both and comparing, and the real index is also compared with an independent suffix specification.",
-        "level_note": "Trusted: Lean kernel + 3 standard axioms; model<->code tie is sampling (generator distribution in evidence); interner modelled as string equality; demangling/namespace construction and the regex engine are environment (end-to-end leg on binaries: see evidence 'uncovered').",
-        "runs": {"quick": [{"n": 6000}], "thorough": [{"n": 400000}]},
-        "assumptions": [
-            "interned symbols are equal iff the strings are equal (string-interner contract; sampled by the correspondence run)",
-            "the regex engine of `symbol <regex>` is a parameter of the theorem",
-        ],
-        "uncovered": [],
-    },
-}
+_D = os.path.join(os.path.dirname(os.path.abspath(__file__)), "props")
+PROPS = {}
+for _f in sorted(os.listdir(_D)):
+    if _f.endswith(".py") and _f[0] == "C":
+        _spec = importlib.util.spec_from_file_location("props_" + _f[:-3], os.path.join(_D, _f))
+        _m = importlib.util.module_from_spec(_spec)
+        _spec.loader.exec_module(_m)
+        PROPS[_f[:-3]] = _m.CONFIG
 
 _WIP = "not yet covered by the Lean framework in this revision (work in progress, see DESIGN.md section 10); no other technique is substituted"
 NOT_APPLICABLE = {p: _WIP for p in ["C%02d" % i for i in range(1, 20)]}
